@@ -167,6 +167,15 @@ func main() {
 						return true
 					}
 					recv := fn.Type().(*types.Signature).Recv().Type().String()
+					if recv == "sync.Locker" && (name == "Lock" || name == "Unlock") {
+						// a mutex behind the sync.Locker interface: go through the
+						// hooks whenever the dynamic value is a hookable lock
+						x := string(src[off(sel.X.Pos()):off(sel.X.End())])
+						edits = append(edits, edit{off(n.Pos()), off(n.End()),
+							fmt.Sprintf("func() { if vhl, ok := any(%s).(verifhook.Locker); ok { verifhook.%s(vhl, %q) } else { %s.%s() } }()", x, name, site(n.Pos()), x, name)})
+						stats["Locker."+name]++
+						return true
+					}
 					if recv != "*sync.Mutex" && recv != "*sync.RWMutex" {
 						return true
 					}
